@@ -1172,7 +1172,7 @@ func cmdDrive(args []string) int {
 		none := model.Val{K: "none"}
 		scen := func(p int, body func(d *driver, logged func(model.Op) model.Val)) {
 			rng := rand.New(rand.NewSource(*seed*7 + int64(p)))
-			t := conc.NewTF(*seed+int64(p), *nkeys)
+			t := driverTable(0, *seed+int64(p), *nkeys)
 			d := &driver{rng: rng, real: heapx.New(t, nil, *nkeys, *derived), nkeys: *nkeys, next: 1, big: true, maxList: 1 << 30, w: w}
 			fmt.Fprintf(w, "{\"t\":\"reset\",\"nkeys\":%d,\"derived\":%d,\"cseed\":%d,\"gen\":0}\n", *nkeys, *derived, *seed+int64(p))
 			logged := func(o model.Op) model.Val {
@@ -1241,6 +1241,27 @@ func cmdDrive(args []string) int {
 				logged(model.Op{Op: "Equals", R: a, J: e, V: none})
 				logged(model.Op{Op: "Equals", R: a, J: c, V: none})
 			}
+		})
+		// read-only calls on containers that hold the infinities (texts of such containers are not JSON, but the calls must
+		// still leave the containers alone)
+		scen(20420, func(d *driver, logged func(model.Op) model.Val) {
+			ninf, pinf := model.Val{K: "float", V: -4}, model.Val{K: "float", V: 4}
+			a := logged(model.Op{Op: "NewList", V: none, Vs: []model.Val{{K: "int", V: 1}, pinf, {K: "str", V: 1}, ninf, {K: "float", V: 2}, pinf}}).V
+			o := logged(model.Op{Op: "NewObject", V: none, Vs: []model.Val{{K: "str", V: 1}, ninf, {K: "str", V: 2}, {K: "ref", V: a}, {K: "str", V: 3}, pinf}}).V
+			for _, r := range []int{a, o, a} {
+				logged(model.Op{Op: "Text", R: r, V: none})
+				logged(model.Op{Op: "NativeCheck", R: r, V: none})
+				logged(model.Op{Op: "ForEach", R: r, I: 7, V: none})
+			}
+			logged(model.Op{Op: "IndexOf", R: a, V: pinf})
+			logged(model.Op{Op: "Contains", R: o, V: ninf})
+			b := logged(model.Op{Op: "Clone", R: a, V: none})
+			if b.K == "ref" && *derived == 0 {
+				logged(model.Op{Op: "Equals", R: a, J: b.V, V: none})
+			}
+			logged(model.Op{Op: "SubList", R: a, I: 1, J: 0, V: none})
+			logged(model.Op{Op: "MapId", R: a, V: none})
+			logged(model.Op{Op: "Text", R: o, V: none})
 		})
 		// three holders of equal content (an object, its copy, a copy of the copy): Clear / Unset / Set on one after the other
 		for si := 0; si < 6; si++ {
